@@ -15,7 +15,7 @@
    MATRICES / VECTORS: about ADV.C10.Model (heap + regenerated headers,
    storageLocation() as coded, both buffered schedules) and ADV.C08.Model, for
    all well-formed views, all dimensions, all contents, over Z. *)
-From Coq Require Import Reals ZArith QArith List Bool Arith Lia.
+From Coq Require Import Reals ZArith QArith List Bool Arith Lia Floats.
 From ADV Require Import Base.Fl C01.Model C01.ModelR C10.Gen C10.Model C10.Spec
   C08.Spec C08.Model C08.ProofsComb C08.ProofsScalar C08.ProofsSet C08.ProofsComposite C08.ProofsRefuted
   C08.ProofsMat C08.ProofsVec C08.ProofsReduce.
@@ -196,21 +196,24 @@ Proof. exact @reduction_forgets_receiver. Qed.
 Example reduction_receiver_may_be_an_element :   (* the statement covers the aliased call: receiver 1 = v[1] *)
   clears_first (IVmean 1 [Rg 0; Rg 1] : instr Z) 1 /\ clears_first (IVnorm 1 [Rg 0; Rg 1] 9 : instr Z) 1.
 Proof. split; constructor. discriminate. Qed.
-Theorem vmean_receiver_in_vector_refuted :      (* v = (3, 5), r = v[1]: 3 instead of 4 *)
-  exists t t', exec (FlR Sp0) idR (IVmean 1 [Rg 0; Rg 1]) st_red = Ok t /\
-               exec (FlR Sp0) idR (IVmean 2 [Rg 0; Rg 1]) st_red = Ok t' /\
-               rval (t 1%nat) = 3%R /\ rval (t' 2%nat) = 4%R.
+(* witnesses in binary64 (C01.Corr.FlF: the instance the library runs), v = (3, 5) *)
+Theorem vmean_receiver_in_vector_refuted :      (* r = v[1]: 3 instead of 4 *)
+  val_of (exec (C01.Corr.FlF []) C01.Corr.round32 (IVmean 1 [Rg 0; Rg 1]) st_red) 1 = Some 3%float /\
+  val_of (exec (C01.Corr.FlF []) C01.Corr.round32 (IVmean 2 [Rg 0; Rg 1]) st_red) 2 = Some 4%float.
 Proof. exact ProofsReduce.vmean_receiver_in_vector_refuted. Qed.
 Theorem mtrace_receiver_on_diagonal_refuted :   (* diagonal (3, 5), r = m[0][0]: 5 instead of 8 *)
-  exists t t', exec (FlR Sp0) idR (IMtrace 0 [Rg 0; Rg 1]) st_red = Ok t /\
-               exec (FlR Sp0) idR (IMtrace 2 [Rg 0; Rg 1]) st_red = Ok t' /\
-               rval (t 0%nat) = 5%R /\ rval (t' 2%nat) = 8%R.
+  val_of (exec (C01.Corr.FlF []) C01.Corr.round32 (IMtrace 0 [Rg 0; Rg 1]) st_red) 0 = Some 5%float /\
+  val_of (exec (C01.Corr.FlF []) C01.Corr.round32 (IMtrace 2 [Rg 0; Rg 1]) st_red) 2 = Some 8%float.
 Proof. exact ProofsReduce.mtrace_receiver_on_diagonal_refuted. Qed.
 Theorem vdotv_receiver_in_vector_refuted :      (* r.VdotV(v, v), r = v[1]: 90 instead of 34 *)
-  exists t t', exec (FlR Sp0) idR (IVdotV 1 [Rg 0; Rg 1] [Rg 0; Rg 1] 9) st_red = Ok t /\
-               exec (FlR Sp0) idR (IVdotV 2 [Rg 0; Rg 1] [Rg 0; Rg 1] 9) st_red = Ok t' /\
-               rval (t 1%nat) = 90%R /\ rval (t' 2%nat) = 34%R.
+  val_of (exec (C01.Corr.FlF []) C01.Corr.round32 (IVdotV 1 [Rg 0; Rg 1] [Rg 0; Rg 1] 9) st_red) 1 = Some 90%float /\
+  val_of (exec (C01.Corr.FlF []) C01.Corr.round32 (IVdotV 2 [Rg 0; Rg 1] [Rg 0; Rg 1] 9) st_red) 2 = Some 34%float.
 Proof. exact ProofsReduce.vdotv_receiver_in_vector_refuted. Qed.
+(* Not proved: reductions_mnorm_first_element_partial — Mnorm with the receiver at position (0,0) (first step r.Pow(r, 2),
+   alias-safe by scalar_operation_receiver_independent; the following r.Add(r, t) steps are the same in both runs) and the
+   in-vector refutations for Vnorm / SmoothMax / LogSmoothMax / Mnorm(other positions) by witness: replayed bit-exactly by
+   the correspondence (stream "reduction") and decided on the implementation by the hunt (class reduce:Mnorm:r=first-element
+   must agree with a fresh receiver, classes reduce:r-in-vector:* are the finding). *)
 
 (* the hypotheses are satisfiable by a non-trivial instance: x.Mul(x, y), both of order 2 over two variables *)
 Example alias_hypotheses_nontrivial :
@@ -331,6 +334,4 @@ Proof. exact mew_transposed_refuted. Qed.
      "safe" classes MdotM:r=b / MdotM:no-overlap include them), the theorems above require separate arrays;
    elementwise_matrix_views_partial — MaddM/MsubM/MmulM with an operand that is a DISJOINT view of the receiver's
      backing array (safe) or a shifted overlapping view (unsafe in general): replayed and hunted, no theorem;
-   reductions_partial — Vmean, VdotV, Vnorm, Mtrace, Mnorm, SmoothMax, LogSmoothMax with the receiver (or a
-     temporary) among the vector elements: outside the alias patterns of this check (C01 replays them without
-     aliasing). *)
+   (reductions with the receiver among the elements: see section (1b) above.) *)
